@@ -188,12 +188,18 @@ package realm
 // ---------------------------------------------------------------------------
 // STUN replies (C03): decoding is delegated to the STUN library (no contract: assumed not to
 // panic); what this package does with the decoded message and address is panic-free.
+// ... and only a Binding *success response* (method 1, class 2) is ever reported as one: a
+// Binding request or indication that happens to carry a mapped address is not withheld (C20).
+// The library's value of BindingSuccess is a precondition, i.e. an assumption (pion/stun:
+// NewType(MethodBinding, ClassSuccessResponse)); the attribute getters are assumed not to change
+// the message type.
 //@ func parseSTUNBindingResponse
-//@   props C03
+//@   props C03 C20
+//@   requires stun.BindingSuccess.Method == 1 && stun.BindingSuccess.Class == 2
+//@   ensures isnil(ret2) ==> ret0 != nil && ret0.Type.Method == 1 && ret0.Type.Class == 2
 //@   modifies any
 //@ func netIPPortToAddrPort
-//@   props C03
-//@   modifies any
+//@   props C03 C20
 // Discover / DiscoverWithDemux keep maps keyed by arrays and netip.AddrPort, which the map model
 // does not cover; their handling of received bytes is buf[:n] with n from ReadFrom and the
 // call of parseSTUNBindingResponse above.
